@@ -28,8 +28,8 @@ def generate_cases(run, tier, big=True):
         bfs = [(1, False, ['A', 'I'])]
         sim = None
     elif tier == 'quick':
-        bfs = [(1, False, ['E', 'A'], True)]
-        sim = ('num=150', 4, ['I'])
+        bfs = [(1, False, ['A'], True), (0, True, ['E', 'I'])]
+        sim = ('num=50', 3, ['I', 'E'])
     else:
         bfs = [(2, False, ['E', 'I', 'A']), (1, True, ['E', 'A'], True)]
         sim = ('num=3000', 6, ['E', 'I', 'A'])
